@@ -49,6 +49,11 @@ def regenerate_src():
             OS.run_ctors()
             OD = srcobj.ObjTranslator(T, "ASAM::CMP::Decoder", elem=OS)
             OD.run()
+            # key type of the decoder's unordered_map: its operator== and hash (the map primitives of Src/Obj.lean compare keys structurally)
+            OE = srcobj.ObjTranslator(T, "ASAM::CMP::Decoder::Endpoint")
+            OE.run()
+            OH = srcobj.ObjTranslator(T, "ASAM::CMP::Decoder::EndpointHash")
+            OH.run()
             OI = srcobj.StTranslator(T, "ASAM::CMP::InterfaceStatus")
             OI.run()
             OV = srcobj.StTranslator(T, "ASAM::CMP::DeviceStatus", elem=OI)
@@ -59,7 +64,7 @@ def regenerate_src():
             tmpl_text, n_tmpl, n_tmpl_failed = srctmpl.range_templates(OT)
             otext = ("/- GENERATED on every run by vlib/srcobj.py from the typed clang AST of /repo/src/encoder.cpp, packet.cpp, decoder.cpp, status.cpp, device_status.cpp, interface_status.cpp — do not edit. -/\n"
                      "import AsamCmp.GeneratedSrc\nimport AsamCmp.Src.Obj\nset_option linter.unusedVariables false\nnamespace AsamCmp.SrcGen\n"
-                     "open AsamCmp AsamCmp.Src\n\n" + OT.emit() + "\n" + tmpl_text + "\n" + OP.emit() + "\n" + OS.emit() + "\n" + OD.emit() + "\n" + OI.emit() + "\n" + OV.emit() + "\n" + OU.emit() + "\nend AsamCmp.SrcGen\n")
+                     "open AsamCmp AsamCmp.Src\n\n" + OT.emit() + "\n" + tmpl_text + "\n" + OP.emit() + "\n" + OS.emit() + "\n" + OD.emit() + "\n" + OE.emit() + "\n" + OH.emit() + "\n" + OI.emit() + "\n" + OV.emit() + "\n" + OU.emit() + "\nend AsamCmp.SrcGen\n")
             note += "; GeneratedSrcObj.lean: %d Encoder, %d Packet, %d Decoder::SegmentedPacket, %d Decoder methods translated as state transformers (%d / %d / %d / %d not)" % (
                 len(OT.order), len(OP.order), len(OS.order), len(OD.order), len(OT.failed), len(OP.failed), len(OS.failed), len(OD.failed))
             note += "; %d InterfaceStatus / %d DeviceStatus / %d Status methods" % (len(OI.order), len(OV.order), len(OU.order))
